@@ -3,6 +3,7 @@ import Tpp.Model.Strings
 import Tpp.Model.StringOps
 import Tpp.Model.Ctors
 import Tpp.Model.Printers
+import Tpp.Driver.Values
 import Tpp.Ref.Render
 /-!
 Driver slice `Strings` (C17).
@@ -60,6 +61,11 @@ def rdSeqOp : Rd (Option (SeqOp Element)) := do
   | "sw" => do let r ← R; let q ← R; return some (.swap r q)
   | "ix" => do let r ← R; let i ← Rd.num; let e ← rdElement; return some (.setAt r i e)
   | "ob" => do let r ← R; return some (.obs r)
+  -- `cq r q`: the comparison operators and hashes of two registers (an observation)
+  | "cq" => do let r ← R; let q ← R; return some (.obs2 r q)
+  -- `bi r i <elem>` / `ri r i <elem>`: assignment through `*(begin()+i)` / `*(rbegin()+i)`
+  | "bi" => do let r ← R; let i ← Rd.num; let e ← rdElement; return some (.setAt r i e)
+  | "ri" => do let r ← R; let i ← Rd.num; let e ← rdElement; return some (.setAtRev r i e)
   | _ => return none
 
 def parseProgram (rest : String) : List (SeqOp Element) :=
@@ -69,16 +75,25 @@ def showReg (es : List Element) : String :=
   s!"{es.length} {hex (TString.toString es)}" ++ String.join (es.map fun e => " ; " ++ showElement e)
 
 /-- the observations made in mid-program (`ob r` = `to_string(r)` at that point), in program order -/
-def observations {α} (text : List α → List Byte) : Regs α → List (SeqOp α) → List String
+def observations {α} (text : List α → List Byte) (cmp : List α → List α → String) : Regs α → List (SeqOp α) → List String
   | _, [] => []
-  | g, .obs r :: ops => hex (text (g r)) :: observations text g ops
-  | g, op :: ops => observations text (op.apply g) ops
+  | g, .obs r :: ops => hex (text (g r)) :: observations text cmp g ops
+  | g, .obs2 r q :: ops => cmp (g r) (g q) :: observations text cmp g ops
+  | g, op :: ops => observations text cmp (op.apply g) ops
+
+/-- `== != < > <=> hash`: what the executor prints for two strings (hash: `1` when the hashes are equal, printed only
+    when the strings compare equal, `-` otherwise) -/
+def cmpBlock (a b : List Element) : String :=
+  let e := TString.eq a b
+  let c := match TString.cmp a b with | .lt => "-1" | .eq => "0" | .gt => "1"
+  let bit (x : Bool) : String := if x then "1" else "0"
+  s!"{bit e}{bit (!e)}{bit (TString.lt a b)}{bit (TString.lt b a)}:{c}:{if e then "1" else "-"}"
 
 def runProgram (rest : String) : String :=
   let ops := parseProgram rest
   let g := SeqOp.run (fun _ => []) ops
   " | ".intercalate ((List.range 4).map fun k => showReg (g k)) ++ " # k=1 # " ++
-    " ".intercalate ("obs" :: observations TString.toString (fun _ => []) ops)
+    " ".intercalate ("obs" :: observations TString.toString cmpBlock (fun _ => []) ops)
 
 def run (kind : Char) (rest : String) : Option String :=
   match kind with
@@ -218,10 +233,34 @@ def oracle (kind : Char) (_cfg rest real : String) : Option String :=
       | .setAt _ _ e => glyphValid e.glyph | _ => true
     if !allValid then some "ok" else
     let texts := SeqOp.run (fun _ => ([] : List (List Byte))) (ops.map (SeqOp.map fun e => e.glyph.text))
-    let expObs := "obs" :: observations (fun (ts : List (List Byte)) => ts.flatten) (fun _ => []) (ops.map (SeqOp.map fun e => e.glyph.text))
+    -- comparison observations are judged on canonical elements (unused glyph storage blanked): equality must be
+    -- "same elements", and ==, <, >, <=> and the hashes must agree with each other (C15)
+    let canonBlock (a b : List Element) : String :=
+      let same := decide (a = b)
+      let bit (x : Bool) : String := if x then "1" else "0"
+      s!"{bit same}{bit (!same)}"
+    let expObs := "obs" :: observations (fun (ts : List (List Byte)) => ts.flatten) (fun _ _ => "?") (fun _ => []) (ops.map (SeqOp.map fun e => e.glyph.text))
+    let expCmp := observations (fun _ => []) canonBlock (fun _ => []) (ops.map (SeqOp.map Tpp.Driver.Values.canonElement))
     match real.splitOn " # " with
     | [body, k, obs] =>
-      if words obs ≠ expObs then some s!"FAIL C17 to_string taken in mid-program: got [{obs}], the text at those points was [{" ".intercalate expObs}]" else
+      let gotObs := words obs
+      -- text observations: compare where the expectation is a text; comparison observations: judged below
+      let pairs := gotObs.zip expObs
+      if gotObs.length ≠ expObs.length || pairs.any (fun p => p.2 ≠ "?" && p.1 ≠ p.2) then
+        some s!"FAIL C17 to_string taken in mid-program: got [{obs}], the text at those points was [{" ".intercalate expObs}]" else
+      let gotCmp := (pairs.filter (fun p => p.2 = "?")).map (·.1)
+      let expC := expCmp.filter (fun s => s.length = 2)
+      let badCmp := (gotCmp.zip expC).filter fun p =>
+        let g := p.1
+        -- g = "e n l g:c:h"; laws: e ≠ n; e ↔ c = 0; l ↔ c = -1; g ↔ c = 1; e → h = 1; and e must be `same`
+        match g.splitOn ":" with
+        | [bits, c, h] =>
+          let bs := bits.toList
+          !(bs.length = 4 && (bs.take 2 = p.2.toList) && (bs.getD 1 '?' != bs.getD 0 '?')
+            && ((bs.getD 0 '0' = '1') == (c = "0")) && ((bs.getD 2 '0' = '1') == (c = "-1")) && ((bs.getD 3 '0' = '1') == (c = "1"))
+            && (bs.getD 0 '0' = '0' || h = "1"))
+        | _ => true
+      if !badCmp.isEmpty then some s!"FAIL C15 C17 strings built by a program: comparison {(badCmp.headD ("", "")).1} but same-elements is {(badCmp.headD ("", "")).2}" else
       let regs := body.splitOn " | "
       if regs.length ≠ 4 then some "FAIL C17 unreadable answer" else
       let bad := (List.range 4).filterMap fun i =>
